@@ -444,17 +444,30 @@ def f12Env : Env :=
     preloaded := [] }
 example : (collect f12Env id).exit = 0 ∧ (collect f12Env id).tasks.map (·.tag) = [1, 1] := by decide
 
-/-- **C13_module_inj_partial.** For files below the root that are not in a package, whose directory names
-and stems contain no `.`, whose stem is not `__init__`, and that do not differ only in their extension,
-the module name determines the file. -/
+/-- a path part that contains none of the characters of the translator's normalisation table is its own
+module-name piece. -/
+theorem normPart_id (c : String) (h : ∀ ch ∈ c.toList, ch ∉ Generated.moduleNameNormalised) : dotToUnderscore c = c := by
+  unfold dotToUnderscore
+  have : c.toList.map normChar = c.toList := by
+    calc c.toList.map normChar = c.toList.map id := List.map_congr_left (fun ch hch => by
+          have := h ch hch
+          simp [normChar, this])
+      _ = c.toList := by simp
+  rw [this, String.ofList_toList]
+
+/-- **C13_module_inj_partial** (over the normalisation table read from the source). For files below the root
+that are not in a package, whose directory names and stems contain no character that
+`_module_name_from_path` rewrites, whose stem is not `__init__`, and that do not differ only in their
+extension, the module name determines the file. -/
 theorem C13_module_inj_partial (root r1 r2 : Path) (l1 l2 : String)
-    (hd1 : ∀ c ∈ r1 ++ [fileStem l1], dotToUnderscore c = c) (hd2 : ∀ c ∈ r2 ++ [fileStem l2], dotToUnderscore c = c)
+    (hd1 : ∀ c ∈ r1 ++ [fileStem l1], ∀ ch ∈ c.toList, ch ∉ Generated.moduleNameNormalised)
+    (hd2 : ∀ c ∈ r2 ++ [fileStem l2], ∀ ch ∈ c.toList, ch ∉ Generated.moduleNameNormalised)
     (hi1 : fileStem l1 ≠ "__init__") (hi2 : fileStem l2 ≠ "__init__")
     (hext : fileStem l1 = fileStem l2 → l1 = l2)
     (h : pathKey root (root ++ r1 ++ [l1]) = pathKey root (root ++ r2 ++ [l2])) :
     root ++ r1 ++ [l1] = root ++ r2 ++ [l2] := by
-  have key : ∀ (r : Path) (l : String), (∀ c ∈ r ++ [fileStem l], dotToUnderscore c = c) → fileStem l ≠ "__init__" →
-      pathKey root (root ++ r ++ [l]) = r ++ [fileStem l] := by
+  have key : ∀ (r : Path) (l : String), (∀ c ∈ r ++ [fileStem l], ∀ ch ∈ c.toList, ch ∉ Generated.moduleNameNormalised) →
+      fileStem l ≠ "__init__" → pathKey root (root ++ r ++ [l]) = r ++ [fileStem l] := by
     intro r l hd hi
     have hp : root.isPrefixOf (root ++ r ++ [l]) = true := by
       rw [List.isPrefixOf_iff_prefix, List.append_assoc]; exact List.prefix_append _ _
@@ -468,7 +481,7 @@ theorem C13_module_inj_partial (root r1 r2 : Path) (l1 l2 : String)
       rw [hl]; simpa using hi
     simp only [hne, Bool.and_false, Bool.false_eq_true, ↓reduceIte]
     calc (r ++ [fileStem l]).map dotToUnderscore = (r ++ [fileStem l]).map id :=
-          List.map_congr_left (fun c hc => hd c hc)
+          List.map_congr_left (fun c hc => normPart_id c (hd c hc))
       _ = r ++ [fileStem l] := by simp
   rw [key r1 l1 hd1 hi1, key r2 l2 hd2 hi2] at h
   have hlen : r1.length = r2.length := by
@@ -476,6 +489,25 @@ theorem C13_module_inj_partial (root r1 r2 : Path) (l1 l2 : String)
   have := List.append_inj h hlen
   have hl : l1 = l2 := hext (by simpa using this.2)
   rw [this.1, hl]
+
+/-- **C13_module_inj_nodot** (pins the F12 class to the rule of the current code: `.` is the *only* character
+rewritten). Names without a `.` — whatever else they contain: `-`, digits, upper case, leading
+underscores — never collide: `exp-1/task_run.py` and `exp_1/task_run.py` are different modules. -/
+theorem C13_module_inj_nodot (root r1 r2 : Path) (l1 l2 : String)
+    (hd1 : ∀ c ∈ r1 ++ [fileStem l1], '.' ∉ c.toList) (hd2 : ∀ c ∈ r2 ++ [fileStem l2], '.' ∉ c.toList)
+    (hi1 : fileStem l1 ≠ "__init__") (hi2 : fileStem l2 ≠ "__init__")
+    (hext : fileStem l1 = fileStem l2 → l1 = l2)
+    (h : pathKey root (root ++ r1 ++ [l1]) = pathKey root (root ++ r2 ++ [l2])) :
+    root ++ r1 ++ [l1] = root ++ r2 ++ [l2] := by
+  have tbl : ∀ ch, ch ∈ Generated.moduleNameNormalised → ch = '.' := by
+    intro ch hch; simpa [Generated.moduleNameNormalised] using hch
+  refine C13_module_inj_partial root r1 r2 l1 l2 ?_ ?_ hi1 hi2 hext h
+  · intro c hc ch hch hmem; rw [tbl ch hmem] at hch; exact hd1 c hc hch
+  · intro c hc ch hch hmem; rw [tbl ch hmem] at hch; exact hd2 c hc hch
+
+example : pathKey ["r"] ["r", "exp-1", "task_run.py"] = ["exp-1", "task_run"] ∧
+    pathKey ["r"] ["r", "exp_1", "task_run.py"] = ["exp_1", "task_run"] ∧
+    pathKey ["r"] ["r", "_Priv2", "task_A-b.py"] = ["_Priv2", "task_A-b"] := by decide
 
 example : pathKey ["r"] (["r"] ++ ["a", "sub"] ++ ["task_x.py"]) = ["a", "sub", "task_x"] := by decide
 
